@@ -18,6 +18,7 @@ from . import extract as X
 VERIF = C.VERIF
 NCPU = int(os.environ.get("VERIF_JOBS", str(os.cpu_count() or 4)))
 _slots = threading.Semaphore(NCPU)
+_confirm_lock = threading.Lock()
 
 DEFAULT_FLAGS = ["--bounds-check", "--pointer-check", "--signed-overflow-check", "--conversion-check",
                  "--div-by-zero-check", "--no-malloc-may-fail", "--object-bits", "12"]
@@ -380,11 +381,17 @@ def _confirm(R, unit, wd, cfile, gb, flags):
             u2["backend"] = conf.get("backend", "minisat")
             gb2, _ = build(u2, cfile, wd, loop_contracts=False, tag="confirm")
             fl = flags_for(u2, confirm=True)
-            r = run_props(gb2, u2, fl, None, trace=True, timeout=conf.get("timeout", 300))
-            R.runs += 1
-            bad = [(n, d) for n, (st, d) in r["results"].items()
-                   if st == "FAILURE" and not is_reach(d) and not is_aux(n, d)]
-            R.confirm = dict(ran=True, bound=conf, failed=[n for n, _ in bad], status=r["status"])
+            big = 28 * (1 << 30)
+            with _confirm_lock:   # confirmation runs are memory-hungry (DFCC instrumentation unwound): one at a time
+                rr = C.run_cbmc(gb2, fl, u2["backend"], None, conf.get("timeout", 600), False, None, mem=big)
+                R.runs += 1
+                bad = [(n, d) for n, (st, d) in rr["results"].items()
+                       if st == "FAILURE" and not is_reach(d) and not is_aux(n, d)]
+                R.confirm = dict(ran=True, bound=conf, failed=[n for n, _ in bad], status=rr["status"], log=rr["log"][-400:] if rr["status"] != "ok" else "")
+                r = dict(traces={})
+                if bad:
+                    rt = C.run_cbmc(gb2, fl, u2["backend"], [bad[0][0]], conf.get("timeout", 600), True, None, mem=big)
+                    r = dict(traces=rt["traces"])
             if bad:
                 n0 = bad[0][0]
                 R.traces = {n: r["traces"].get(n) for n, _ in bad if r["traces"].get(n)}
